@@ -61,10 +61,13 @@ SetMethod(m) ==
   /\ used' = IF FreezeAtFirstUse /\ built THEN used ELSE <<m, used[2]>>
   /\ hist' = Append(hist, <<"method", m>>)
   /\ UNCHANGED <<order, built, repr, usedrepr>>
-Interpolate(q) ==
+\* an interpolated point is reached through four DOORS - interpolate(), its alias propagate(), an iteration over an explicit date,
+\* the sub-ephemeris built from one - which the contract does not tell apart: TLC enumerates the choice
+Doors == {"interpolate", "propagate", "iter-dates", "ephem-dates"}
+Interpolate(q, door) ==
   /\ Can
   /\ built' = TRUE
-  /\ hist' = Append(hist, <<"interp", q, used[1], used[2], usedrepr[1], usedrepr[2]>>)
+  /\ hist' = Append(hist, <<"interp", q, used[1], used[2], usedrepr[1], usedrepr[2], door>>)
   /\ UNCHANGED <<method, order, used, repr, usedrepr>>
 \* ephem.frame = f / ephem.form = f : every point is converted in place
 Convert(r) ==
@@ -88,7 +91,7 @@ Copy ==
   /\ hist' = Append(hist, <<"copy">>)
   /\ UNCHANGED repr
 
-Next == Pickle \/ Copy \/ (\E k \in Orders : SetOrder(k)) \/ (\E m \in Methods : SetMethod(m)) \/ (\E q \in Queries : Interpolate(q)) \/ (\E r \in Reprs : Convert(r))
+Next == Pickle \/ Copy \/ (\E k \in Orders : SetOrder(k)) \/ (\E m \in Methods : SetMethod(m)) \/ (\E q \in Queries, d \in Doors : Interpolate(q, d)) \/ (\E r \in Reprs : Convert(r))
 Spec == Init /\ [][Next]_vars
 
 \* CONTRACT: what an interpolation uses is what the getters report
